@@ -143,6 +143,11 @@ __CPROVER_ensures(XV_SAME(xv_att_conn) && XV_SAME(xv_att_conn_rc) && XV_SAME(xv_
 /* common_tp.c: builds a sockaddr_in / sockaddr_in6 (aborts on any other family) */
 void tp_ip_to_sockaddr(const struct xcm_addr_ip *xcm_ip, uint16_t port, int64_t scope, struct sockaddr *sockaddr)
 __CPROVER_requires(__CPROVER_r_ok(xcm_ip, sizeof(*xcm_ip)) && FAM_OK(xcm_ip->family) && __CPROVER_w_ok(sockaddr, sizeof(struct sockaddr_storage)))
+/* PO[C13,C11] tp_ip_to_sockaddr.scope_in_range (precondition, checked at every call site): -1 ("not set") or an interface index 0..UINT32_MAX.  Unit addrpub
+ * enforces the function under the stronger `AF_INET6 ==> 0 <= scope`; the one call that can break that is the bind() address of an IPv6 xcm.local_addr on the
+ * IPv4 descriptor of a track, which the kernel refuses for its family.  That the DESTINATION of connect() never carries the marker is part of
+ * "every attempt goes to the listed address" (env/dnstc_env.h connect(): xv_wrong_addr; fix 3e146f1) */
+__CPROVER_requires(scope >= -1 && scope <= 0xffffffffLL)
 __CPROVER_assigns(__CPROVER_object_upto(sockaddr, sizeof(struct sockaddr_storage)), xv_sa)
 __CPROVER_ensures(sockaddr->sa_family == xcm_ip->family)
 __CPROVER_ensures(xv_sa_src == (const void *)xcm_ip && xv_sa_dst == (const void *)sockaddr && xv_sa_port == port && xv_sa_scope == scope)
@@ -236,7 +241,9 @@ __CPROVER_ensures(xv_est_n == __CPROVER_old(xv_est_n) + 1 && xv_est_fd == fd && 
 #define TRK_LOCAL_FRESH(t) ((t)->local_ip == NULL || __CPROVER_is_fresh((t)->local_ip, sizeof(struct xcm_addr_ip)))
 #endif
 #define TRK_REQUIRES_SHAPE(t) TRK_REQUIRES_SHAPE_V(t, xv_q)
-#define TRK_REQUIRES_SHAPE_V(t, v) (TRK_FAMS_OK_V(t, v) && TRK_FDS_OK(t) && TRK_IDX_OK(t) && TRK_LOCAL_OK(t) && (t)->timer_mgr != NULL && (t)->xpoll != NULL && \
+/* (scope: -1 = not set, otherwise an interface index: set_scope_attr admits 0..UINT32_MAX only - enforced in unit btcp) */
+#define SCOPE_OK(sc) ((sc) >= -1 && (sc) <= 0xffffffffLL)
+#define TRK_REQUIRES_SHAPE_V(t, v) (TRK_FAMS_OK_V(t, v) && TRK_FDS_OK(t) && TRK_IDX_OK(t) && TRK_LOCAL_OK(t) && SCOPE_OK((t)->scope) && (t)->timer_mgr != NULL && (t)->xpoll != NULL && \
                                xv_fk >= 0 && xv_fk < XV_NFD && (t)->tcp_connect_timeout == (t)->tcp_connect_timeout /* not NaN */)
 #define TRK_REQUIRES_REST(t) (TRK_REQUIRES_SHAPE(t) && TRK_GHOST_OK(t))
 
@@ -443,7 +450,7 @@ __CPROVER_requires(TRK_IPS_FRESH(track))
 __CPROVER_requires(TRK_LOCAL_FRESH(track))
 __CPROVER_requires(TRK_FAMS_OK(track))
 __CPROVER_requires(TRK_FDS_OK(track))
-__CPROVER_requires(TRK_IDX_OK(track) && TRK_LOCAL_OK(track))
+__CPROVER_requires(TRK_IDX_OK(track) && TRK_LOCAL_OK(track) && SCOPE_OK(track->scope))
 __CPROVER_requires(track->timer_mgr != NULL && track->xpoll != NULL && xv_fk >= 0 && xv_fk < XV_NFD && track->tcp_connect_timeout == track->tcp_connect_timeout)
 __CPROVER_requires(TRK_GHOST_OK_S(8))
 __CPROVER_requires(TRK_ENTRY_STATE_OK(track))
@@ -541,7 +548,7 @@ static struct track *track_create(int fd4, int fd6, const struct xcm_addr_ip *lo
                                   double initial_delay, struct timer_mgr *timer_mgr, struct xpoll *xpoll, void *log_ref)
 __CPROVER_requires(num_remote_ips >= 1 && num_remote_ips <= TRK_MAX_IPS && __CPROVER_is_fresh(remote_ips, sizeof(struct xcm_addr_ip) * num_remote_ips) && \
                    __CPROVER_is_fresh(tcp_opts, sizeof(*tcp_opts)) && (local_ip == NULL || __CPROVER_is_fresh(local_ip, sizeof(*local_ip))))
-__CPROVER_requires(IPS_FAMS_OK(remote_ips, num_remote_ips) && (local_ip == NULL || FAM_OK(local_ip->family)))
+__CPROVER_requires(IPS_FAMS_OK(remote_ips, num_remote_ips) && (local_ip == NULL || FAM_OK(local_ip->family)) && SCOPE_OK(scope))
 __CPROVER_requires(TRK_FD_OK(fd4) && TRK_FD_OK(fd6) && (fd4 >= 0 || fd6 >= 0) && fd4 != fd6 && timer_mgr != NULL && xpoll != NULL && TRK_GHOST_OK_S(4) && \
                    xv_fk >= 0 && xv_fk < XV_NFD && xv_mc < sizeof(struct xcm_addr_ip) * TRK_MAX_IPS)
 __CPROVER_requires(tcp_connect_timeout == tcp_connect_timeout && initial_delay == initial_delay /* neither is NaN */)
@@ -647,7 +654,7 @@ int tconnect_connect(struct tconnect *tconnect, const struct xcm_addr_ip *local_
 __CPROVER_requires(__CPROVER_is_fresh(tconnect, sizeof(struct tconnect)) && num_remote_ips >= 1 && num_remote_ips <= TRK_MAX_IPS)
 __CPROVER_requires(__CPROVER_is_fresh(remote_ips, sizeof(struct xcm_addr_ip) * num_remote_ips) && __CPROVER_is_fresh(tcp_opts, sizeof(*tcp_opts)) && \
                    (local_ip == NULL || __CPROVER_is_fresh(local_ip, sizeof(*local_ip))))
-__CPROVER_requires(IPS_FAMS_OK(remote_ips, (int)num_remote_ips) && (local_ip == NULL || FAM_OK(local_ip->family)))
+__CPROVER_requires(IPS_FAMS_OK(remote_ips, (int)num_remote_ips) && (local_ip == NULL || FAM_OK(local_ip->family)) && SCOPE_OK(scope))
 /* a tconnect as tconnect_create leaves it: both descriptors, a timer manager, no track yet */
 __CPROVER_requires(XV_FD_OURS(tconnect->fd4) && xv_fdt.e[tconnect->fd4].nonblock && XV_FD_OURS(tconnect->fd6) && xv_fdt.e[tconnect->fd6].nonblock && tconnect->fd4 != tconnect->fd6 && \
                    tconnect->timer_mgr != NULL && tconnect->xpoll != NULL && tconnect->num_tracks == 0)
